@@ -477,22 +477,22 @@ class BaseParser:
                     field.attr_dependencies if as_attname else field.dependencies
                 )
 
-        if not options.ignore_required:
-            # if required field is ignored. we do not need to check for required fields
-            for key, field in self.fields.items():
-                name = field.attname if as_attname else field.name
-                if name in result or name in attempted:
-                    # a field that was given a value (even an invalid / excluded one) is not absent
-                    continue
-                if excluded_keys and name in excluded_keys:
-                    continue
-                unprovided_fields.add(name)
-                if field.is_required(options=options):
-                    context.handle_error(exc.AbsenceError(item=name))
-                    continue
-                default = field.get_default(options, defer=False)
-                if not unprovided(default):
-                    result[name] = default
+        # field.is_required() is already False under ignore_required; the defaults of the
+        # missing fields must still be applied (as field_first_parse does)
+        for key, field in self.fields.items():
+            name = field.attname if as_attname else field.name
+            if name in result or name in attempted:
+                # a field that was given a value (even an invalid / excluded one) is not absent
+                continue
+            if excluded_keys and name in excluded_keys:
+                continue
+            unprovided_fields.add(name)
+            if field.is_required(options=options):
+                context.handle_error(exc.AbsenceError(item=name))
+                continue
+            default = field.get_default(options, defer=False)
+            if not unprovided(default):
+                result[name] = default
 
         if dependencies:
             dependant = set(result)
